@@ -1,11 +1,13 @@
 package indexes
 
 import (
+	"errors"
 	"fmt"
 	"io"
 	"os"
 
 	"github.com/ipfs/go-cid"
+	"github.com/rpcpool/yellowstone-faithful/compactindexsized"
 	"github.com/rpcpool/yellowstone-faithful/deprecated/compactindex"
 )
 
@@ -59,7 +61,12 @@ func (r *Deprecated_CidToOffset_Reader) Get(cid_ cid.Cid) (uint64, error) {
 		return 0, fmt.Errorf("cid is undefined")
 	}
 	key := cid_.Bytes()
-	return r.index.Lookup(key)
+	offset, err := r.index.Lookup(key)
+	if errors.Is(err, compactindex.ErrNotFound) {
+		// callers recognise a missing key by the sentinel of the current format
+		return 0, compactindexsized.ErrNotFound
+	}
+	return offset, err
 }
 
 func (r *Deprecated_CidToOffset_Reader) Close() error {
